@@ -30,7 +30,7 @@ static const double POISON_VAL = 1e15; // finite, far from anything generated, n
 enum By { BY_NONE = 0, BY_SEL, BY_UVAL, BY_UCOORD, BY_MIXED, BY_SELNA };
 
 // Generator switches to steer away from input classes hit by known defects (default: off = everything generated).
-// Developer override: environment variable C05_AVOID="ball,ucoord,selna,ufext".
+// Developer override: environment variable C05_AVOID="ball,ucoord,selna,ufext,linear".
 inline bool avoid(const char* what, bool dflt)
 {
   const char* e = getenv("C05_AVOID");
@@ -41,6 +41,7 @@ static const bool AVOID_UCOORD = false; // do not generate samples with an undef
 static const bool AVOID_BALL   = false; // do not generate moving neighbourhoods with the ball-tree search
 static const bool AVOID_SELNA  = false; // do not generate selections whose "off" value is the undefined value
 static const bool AVOID_UFEXT  = false; // do not generate samples whose external drift is undefined
+static const bool AVOID_LINEAR = false; // do not generate intrinsic (linear variogram) models
 static const char* BYN[] = {"none", "sel", "uval", "ucoord", "mixed", "selna"};
 // selection shapes
 enum SelMode { SEL_NONE = 0, SEL_RANDOM, SEL_ALMOST_EMPTY, SEL_EMPTY, SEL_FULL };
@@ -194,6 +195,7 @@ inline Samples genSamples(Rng& r, const GenOpt& o)
       if (r.coin(p)) s.z[r.irange(0, s.nvar - 1)][i] = TEST;
   }
   s.poisonCoord = r.coin(0.6);
+  if (const char* e = getenv("C05_PC")) s.poisonCoord = atoi(e) != 0; // developer override (the draw above is still consumed)
   if (r.coin(o.pWeight))
   {
     s.w.resize(s.n);
